@@ -121,6 +121,12 @@ class ParserState:
 
         def associator(node: Node) -> Visit:
             association[node].add(platform.name)
+
+            # A continuation (#elif/#else) of a conditional that has already
+            # selected a branch is skipped without being evaluated.
+            if node.is_cont_node() and branch_taken[-1]:
+                return Visit.NEXT_SIBLING
+
             active = node.evaluate_for_platform(
                 platform=platform,
                 filename=self._get_realpath(filename),
@@ -131,8 +137,6 @@ class ParserState:
             if node.is_start_node():
                 branch_taken.append(active)
             elif node.is_cont_node():
-                if branch_taken[-1]:
-                    return Visit.NEXT_SIBLING
                 branch_taken[-1] = active
             elif node.is_end_node():
                 branch_taken.pop()
